@@ -549,3 +549,14 @@ Theorem envdep_old_refuted :
 Proof.
   exists [([86], None)], [([86], Some [])]. split; [discriminate|]. vm_compute. repeat split.
 Qed.
+
+(* every path rustc lists as a source of the crate is in the list whose contents are hashed — whatever its name or
+   extension (include_bytes!/include_str! files are listed there too: assets/plugin.so, data.rlib, ...) *)
+Theorem depinfo_every_listed_source : forall t ts fs envs cwd f,
+  target_ok t = true -> forallb dep_path_ok fs = true -> In f fs ->
+  In (path_join cwd f) (parse_dep_info (print_dep_info (t :: ts) fs envs) cwd).
+Proof.
+  intros t ts fs envs cwd f Ht Hfs Hin.
+  eapply Permutation_in; [apply Permutation_sym, depinfo_lossless; assumption|].
+  apply in_map. exact Hin.
+Qed.
